@@ -16,8 +16,22 @@ if [ ! -x /verif/.cache/instr ] || [ /verif/sim/cmd/instr/main.go -nt /verif/.ca
 fi
 /verif/.cache/instr -repo "${VERIF_REPO:-/repo}" -as /repo -out "$SCR" -verif /verif/sim/overlay || { echo "BUILD-ERROR instrumenter failed" >&2; exit 2; }
 cp "$SCR/instr_report.json" "$OUT/instr_report.json"
-go1.26.8 test -c -vet=off -tags verif -overlay "$SCR/overlay.json" -o "$OUT/sim.test" . 2> "$OUT/build.log" || { cat "$OUT/build.log" >&2; echo "BUILD-ERROR sim.test" >&2; exit 2; }
+TAGS=verif
+if ! go1.26.8 test -c -vet=off -tags "$TAGS" -overlay "$SCR/overlay.json" -o "$OUT/sim.test" . 2> "$OUT/build.log"; then
+  # The accessor files added through the overlay name fields of the library's types
+  # (the call registry, the stream table, the proxy's client table). A tree in which
+  # those were renamed or turned into other data structures still deserves a verdict:
+  # build again with accessors that answer "unknown" (the oracles that need them are skipped).
+  if grep -q "verif_access\.go" "$OUT/build.log"; then
+    cp "$OUT/build.log" "$OUT/build-full-accessors.log"
+    TAGS="verif verif_fallback"
+    echo "NOTE: accessor files do not compile against this tree; building with fallback accessors" >> "$OUT/build-full-accessors.log"
+    go1.26.8 test -c -vet=off -tags "$TAGS" -overlay "$SCR/overlay.json" -o "$OUT/sim.test" . 2> "$OUT/build.log" || { cat "$OUT/build.log" >&2; echo "BUILD-ERROR sim.test" >&2; exit 2; }
+  else
+    cat "$OUT/build.log" >&2; echo "BUILD-ERROR sim.test" >&2; exit 2
+  fi
+fi
 if [ "${RACE:-0}" = "1" ]; then
-  go1.26.8 test -c -race -vet=off -tags verif -overlay "$SCR/overlay.json" -o "$OUT/sim.race.test" . 2>> "$OUT/build.log" || { cat "$OUT/build.log" >&2; echo "BUILD-ERROR sim.race.test" >&2; exit 2; }
+  go1.26.8 test -c -race -vet=off -tags "$TAGS" -overlay "$SCR/overlay.json" -o "$OUT/sim.race.test" . 2>> "$OUT/build.log" || { cat "$OUT/build.log" >&2; echo "BUILD-ERROR sim.race.test" >&2; exit 2; }
 fi
 exit 0
